@@ -58,7 +58,7 @@ ObsRec(f, e) ==
         mt |-> e.mt, cid |-> e.cid, link |-> e.link, size |-> e.size]
 
 CidOf(tree, src) ==
-  LET S == { n \in tree : n.kind = "file" /\ n.p = src } IN
+  LET S == { n \in tree : n.kind = "file" /\ (n.p = src \/ \E l \in tree : l.kind = "link" /\ l.p = src /\ l.rt # "" /\ l.rt = n.p) } IN
   IF S = {} THEN "" ELSE (CHOOSE n \in S : TRUE).cid
 
 ExpKind(x) == IF IsDirEnt(x) THEN "dir" ELSE IF x.type = "symlink" THEN "link"
